@@ -27,6 +27,11 @@ Theorem C30_cleanup_runs : forall id tok final w0 w x nd p,
 Proof. exact cleanup_none. Qed.
 Print Assumptions C30_cleanup_runs.
 
+(* the rpc handler (sync mode) drains the channel to its end whatever the stream does *)
+Theorem C30_rpc_drains : forall ms n k, fst (rpc_forward ms n k) = ms.
+Proof. exact rpc_forward_drains. Qed.
+Print Assumptions C30_rpc_drains.
+
 Theorem C30_cleanup_scenarios : forall o, In o lambda_ops ->
   forall k, is_send_at (script_of o) (prep busy3 o) k = false ->
   match addr_of (script_of o) (prep busy3 o) k with Some f => in_cleanup f | None => false end = false ->
